@@ -226,6 +226,46 @@ def correspond(ctx, scale):
         body += 'Eval vm_compute in map fst (filter (fun c => negb (snd c)) cases).\n'
         files.append((f'c04_fwd_{k // 8}', body))
 
+    # ---------------- 2b. INSTANCE independence: a first module of a class is built, every parameter and buffer it owns is overwritten in place (a fine-tuned
+    # checkpoint loaded, nn.init.* applied), then a SECOND module with the same arguments is built: it starts from the declared grid, not from whatever the
+    # first one was turned into (no storage shared through module-level caches)
+    from vector_quantize_pytorch import LatentQuantize as _LQ
+    indep = [('latent-int-levels', lambda: _LQ(levels=4, dim=2, codebook_dim=2), 2, 'cf'), ('latent-int-levels-5', lambda: _LQ(levels=5, dim=3, codebook_dim=3), 3, 'cf'),
+             ('latent-list-levels', lambda: _LQ(levels=[4, 3], dim=2), 2, 'cf'), ('fsq', lambda: FSQ([4, 3]), 2, 'seq'), ('fsq-sym', lambda: FSQ([4, 5], preserve_symmetry=True), 2, 'seq'),
+             ('lfq', lambda: LFQ(codebook_size=8, dim=3), 3, 'seq')]
+    for iname, imk, idim, ilay in indep:
+        try:
+            torch.manual_seed(4321)
+            ref_sd = {k_: v_.clone() for k_, v_ in imk().state_dict().items()}
+            ref_buf = {k_: v_.clone() for k_, v_ in imk().named_buffers()}
+            torch.manual_seed(4321)
+            first = imk()
+            with torch.no_grad():
+                for t_ in list(first.parameters()) + list(first.buffers()):
+                    if t_.dtype.is_floating_point:
+                        t_.mul_(0.6).add_(0.15)
+                    elif t_.dtype in (torch.int32, torch.int64):
+                        t_.add_(1)
+            torch.manual_seed(4321)
+            second = imk()
+            dist['instance_independence'] = dist.get('instance_independence', 0) + 1
+            evaluations += 1
+            got_sd = dict(second.state_dict())
+            got_buf = dict(second.named_buffers())
+            changed = [k_ for k_ in ref_sd if not torch.equal(ref_sd[k_], got_sd[k_])] + [k_ for k_ in ref_buf if not torch.equal(ref_buf[k_], got_buf[k_])]
+            if changed:
+                failures.append({'key': f'independence:{iname}', 'what': f'{iname}: a second module built after the first one\'s tensors were overwritten in place starts from different values in {changed[:3]} '
+                                 '(storage shared between instances)', 'case': {'part': 'independence', 'name': iname}})
+                continue
+            second.eval()
+            xi = torch.randn(2, idim, 5) if ilay == 'cf' else torch.randn(2, 5, idim)
+            with torch.no_grad():
+                r_ = second(xi)
+                dec_ = second.indices_to_codes(r_[1])
+            if not torch.allclose(dec_.reshape(-1), r_[0].reshape(-1), atol=1e-6) and dec_.numel() == r_[0].numel():
+                failures.append({'key': f'independence:{iname}:decode', 'what': f'{iname}: on the second module indices_to_codes(indices) differs from the emitted vector', 'case': {'part': 'independence', 'name': iname}})
+        except Exception as ex:
+            failures.append({'key': f'independence:{iname}:exception:{type(ex).__name__}', 'what': repr(ex), 'case': {'part': 'independence', 'name': iname}})
     # ---------------- 3. LFQ tables and forward
     lfq_cases = []
     lid = 0
